@@ -181,7 +181,7 @@ class DocGen:
         kids = self.children(R, t, rs.content[t], depth, budget)
         return mk(t, attrs, kids, own_marks)
 
-    def children(self, R: Draw, parent: str, state: tuple, depth: int, budget: int, max_kids: int | None = None) -> list[dict]:
+    def children(self, R: Draw, parent: str, state: tuple, depth: int, budget: int, max_kids: int | None = None, p_stop: float = 0.25) -> list[dict]:
         """Random walk from `state` (a derivative of parent's content expression) to a nullable state."""
         rs = self.rs
         kids: list[dict] = []
@@ -196,7 +196,7 @@ class DocGen:
                 opts2 = [a for a in opts if rs.leaf[a] or rs.inline_content[a]]
                 opts = opts2 if opts2 or can_stop else opts
             over = len(kids) >= max_kids or budget <= 0
-            if can_stop and (over or not opts or R.bool(0.25)):
+            if can_stop and (over or not opts or R.bool(p_stop)):
                 break
             if over or not opts:
                 comp = self.completion(state)
@@ -236,7 +236,8 @@ class DocGen:
         depth = R.weighted([(2, 3), (3, 4), (4, 2), (5, 1)])
         budget = {"tiny": 8, "small": 24, "medium": 50, "large": 110}[size]
         attrs = self.attrs(R, "node", rs.top)
-        kids = self.children(R, rs.top, rs.content[rs.top], depth, budget)
+        top_kids = R.weighted([(1, 1), (2, 4), (3, 4), (4, 2), (5, 1)])
+        kids = self.children(R, rs.top, rs.content[rs.top], depth, budget, max_kids=top_kids, p_stop=0.1)
         return mk(rs.top, attrs, kids)
 
 
